@@ -13,7 +13,7 @@ PROPS = {
     "C04": {
         "level": "exploration",
         "technique": "runtime monitoring: per-body run counters in scenarios where every path to a body provably begins after cancel() returned (same-thread schedule after cancel; bodies queued while every worker is held in a gate task; cascade through kOn parents; exception-cancel with one executing thread); plain + TSan + ASan builds",
-        "level_text": "Scenario A: cancel() returns, then the same thread calls schedule / schedule(ForceQueuingTag) / scheduleBulk / scheduleBulk(ForceQueuingTag) at every load level that selects a different path (idle, set over its load factor, pool over its load factor, both; external and pool-recursive caller; 0-thread pool; TaskSet, ConcurrentTaskSet kHeavy/kLightweight). B: bodies force-queued while all workers sit in gate tasks, then cancel, then gates open. C: the same through ParentCascadeCancel::kOn parents at depth 1..3 with sibling children and sets born under a cancelled parent. D: cancellation by a thrown exception with exactly one executing thread. No forbidden body may run; wait() must return true (D: rethrow once, then true).",
+        "level_text": "Scenario A: cancel() returns, then the same thread calls schedule / schedule(ForceQueuingTag) / scheduleBulk / scheduleBulk(ForceQueuingTag) at every load level that selects a different path (idle, set over its load factor, pool over its load factor, both; external and pool-recursive caller; 0-thread pool; TaskSet, ConcurrentTaskSet kHeavy/kLightweight). B: bodies force-queued while all workers sit in gate tasks, then cancel, then gates open. C: the same through ParentCascadeCancel::kOn parents at depth 1..3 with sibling children and sets born under a cancelled parent. D: cancellation by a thrown exception with exactly one executing thread (D1 queued thrower; D2 a body of a scheduleBulk batch throws while the batch runs inline; D3 a body of such a batch calls cancel() itself: the rest of the batch must not run). E: a kOn child is alive, a sibling task of the parent throws (exception-cancel of the parent), then the owner calls parent.cancel(): the child must be cancelled; judged on the child with scenarios A and B (depth 1-2, all kinds, pools 0 and >= 2). No forbidden body may run; wait() must return true (D: rethrow once, then true).",
         "level_note": "Only scenarios whose check-then-act window is closed by construction are judged (DESIGN 3.1). Load levels are read back from the pool/task-set accessors right before the call, so the class that was really reached is what is recorded.",
         "design_ref": "DESIGN.md §4 C04",
         "rule": "case = scenario spec (scenario, set kind, API, intended load level, caller, pool size, multipliers, counts); non-trivial = at least one body was forbidden to run and none of them ran; distinct by full spec",
@@ -22,7 +22,7 @@ PROPS = {
                              "post:ts/schedule/set-over", "post:ts/bulk/set-over", "post:cts-heavy/schedule/pool-over", "post:cts-light/schedule/pool-over",
                              "post:cts-light/bulk/pool-over", "post:cts-heavy/bulk/set-over",
                              "cascade-depth:1", "cascade-depth:2", "cascade-siblings", "born-cancelled",
-                             "exception-cancel:queued", "exception-cancel:bulk-inline", "cancel-from-other-thread", "free-workers"],
+                             "exception-cancel:queued", "exception-cancel:bulk-inline", "cancel-during-inline-bulk", "cancel-during-inline-bulk:body-cancels", "cancel-after-exception-cascade", "scn:E", "cancel-from-other-thread", "free-workers"],
         "assumptions": _A,
         "runs": {
             "quick": [{"config": "plain", "shards": 16, "args": {"n": 960}}, {"config": "tsan", "shards": 16, "args": {"n": 192}}, {"config": "asan", "shards": 16, "args": {"n": 320}}],
